@@ -899,7 +899,13 @@ def run(ctx):
         for spec, cfg, kw in (("Map", "MC_Map_quick.cfg", {}), ("Scope", "MC_Scope_quick.cfg", {}),
                               ("CScope", "MC_CScope_bfs_quick.cfg", {})):
             r = ctx.tlc_must_pass(spec, cfg, workers=6, coverage=True, timeout=1200, collect="VCASE ", on_line=lambda x: None, **kw)
-            ctx.check_coverage(r)
+            # TLC prints <action>: <distinct states found>:<states generated>; with a VIEW (Map) read-only actions find
+            # no new distinct state, so "taken" is judged on the generated count
+            untaken = [a for a, (found, gen) in r.coverage.items() if gen == 0]
+            ctx.cov.setdefault("untaken_actions", []).extend(untaken)
+            ctx.cov.setdefault("actions_taken", {}).update({a: gen for a, (found, gen) in r.coverage.items()})
+            if untaken:
+                raise vlib.MachineryError("vacuity guard: actions never taken: %s" % untaken)
 
 
 def replay(ctx, path):
